@@ -352,6 +352,7 @@ pub fn run(tier: &str, seed: u64) -> i32 {
                                                     detail: format!("{what}: {detail}"),
                                                     derivation: what,
                                                     extra: json!({"family": fname, "depth": d, "position": position, "variant": v}),
+                                                    count: 1,
                                                 });
                                                 // deeper steps of a blowing-up family would not terminate: stop this family
                                                 break 'family;
